@@ -1,5 +1,245 @@
-use crate::util::Args;
-pub fn cmd_micro(_a: &Args) -> i32 {
-    eprintln!("micro: not implemented yet");
-    2
+//! MICRO: a Miri-sized multi-thread workload. Run with `cargo +nightly miri run ... -- micro --seed S`
+//! (each Miri seed is a different basic-block-level schedule with weak-memory emulation). The oracles
+//! are the same trace monitors as everywhere else plus Miri's own verdict (UB / data race) on all
+//! code executed. Also runs natively (then it is just a small MT round).
+
+use crate::check::{self, Meta, Mode};
+use crate::ev::*;
+use crate::mt::{send_blocking, BKind};
+use crate::sa::*;
+use crate::scen::*;
+use crate::util::*;
+use std::collections::BTreeSet;
+use std::sync::Arc;
+
+fn spec(cap: usize, in_peers: bool) -> ActorSpec {
+    ActorSpec {
+        cap: Some(cap),
+        start: HookScript::default(),
+        run: vec![],
+        stop: HookScript::default(),
+        in_peers,
+    }
+}
+
+pub fn cmd_micro(a: &Args) -> i32 {
+    let seed = a.u64("seed", 1);
+    let prop = a.str("prop", "all");
+    install_panic_hook();
+    install_subscriber();
+    let rt = tokio::runtime::Builder::new_multi_thread().worker_threads(2).enable_time().build().unwrap();
+    // actors: 0 = leaf, 1 and 2 = middles that ask the leaf from their handlers, 3.. = spawned in parallel from threads
+    let n = 3 + 6;
+    let sh = Shared::new(n, 1, false, false, seed);
+    let mut viol: Vec<(String, String)> = vec![];
+    #[cfg(feature = "f_testutils")]
+    let dl0 = rsactor::dead_letter_count();
+
+    // 1. parallel spawns from 3 threads (id allocator)
+    let mut ths = vec![];
+    for t in 0..3usize {
+        let (sh2, h) = (sh.clone(), rt.handle().clone());
+        ths.push(std::thread::spawn(move || {
+            let _g = h.enter();
+            let mut v = vec![];
+            for k in 0..2usize {
+                let idx = 3 + t * 2 + k;
+                let (r, jh) = spawn_sa(&sh2, idx, &spec(2, false));
+                sh2.model_add(idx, 1, "spawner");
+                v.push((idx, r, jh));
+            }
+            v
+        }));
+    }
+    let mut extra = vec![];
+    for t in ths {
+        extra.extend(t.join().unwrap());
+    }
+    let (leaf, leaf_jh) = {
+        let _g = rt.enter();
+        spawn_sa(&sh, 0, &spec(4, true))
+    };
+    sh.model_add(0, 1, "spawner");
+    sh.peers.lock().unwrap()[0] = Some(H::D(leaf.clone()));
+    sh.model_add(0, 1, "peers");
+    let mut mids = vec![];
+    for i in 1..3usize {
+        let _g = rt.enter();
+        let (r, jh) = spawn_sa(&sh, i, &spec(2, false));
+        sh.model_add(i, 1, "spawner");
+        mids.push((i, r, jh));
+    }
+    let ids = sh.ids.lock().unwrap().clone();
+    {
+        let set: BTreeSet<u64> = ids.iter().cloned().collect();
+        if set.len() != ids.len() {
+            viol.push(("C11.unique".into(), format!("duplicate ids among parallel spawns: {:?}", ids)));
+        }
+    }
+    let mut uid = seed * 1000;
+    let mut next = || {
+        uid += 1;
+        uid
+    };
+    let sh2 = sh.clone();
+    let mids2: Vec<(usize, rsactor::ActorRef<SA>)> = mids.iter().map(|(i, r, _)| (*i, r.clone())).collect();
+    let mut bodies = vec![];
+    for _ in 0..2 {
+        let mut per = vec![];
+        for _ in 0..2 {
+            let inner = Body::plain(next());
+            per.push(Body {
+                uid: next(),
+                flags: 0,
+                steps: vec![Step::Peer {
+                    target: 0,
+                    kind: SendKind::Ask,
+                    mty: MTy::U,
+                    body: inner,
+                }],
+            });
+        }
+        bodies.push(per);
+    }
+    let blocking_uid = next();
+    let fail_uids: Vec<u64> = (0..8).map(|_| next()).collect();
+    let leaf2 = leaf.clone();
+    rt.block_on(async {
+        // 2. concurrent in-actor asks through two middle actors (wait-for graph mutex from two workers with the feature on)
+        let mut hs = vec![];
+        for ((i, r), per) in mids2.into_iter().zip(bodies.into_iter()) {
+            let sh3 = sh2.clone();
+            hs.push(tokio::spawn(async move {
+                let h = H::D(r);
+                for b in per {
+                    send_via(&sh3, Ctx::Client(i), i, &h, SendKind::Ask, MTy::U, b).await;
+                }
+            }));
+        }
+        // 3. metric reader thread meanwhile
+        #[cfg(feature = "f_metrics")]
+        let reader = {
+            let (sh3, l) = (sh2.clone(), leaf2.clone());
+            std::thread::spawn(move || {
+                for _ in 0..3 {
+                    crate::sim::metrics_event(&sh3, 0, &l, "reader-0");
+                    std::thread::yield_now();
+                }
+            })
+        };
+        // 4. a blocking ask with a timeout from a plain thread (helper thread + private runtime inside rsactor)
+        let bt = {
+            let (sh3, l) = (sh2.clone(), leaf2.clone());
+            std::thread::spawn(move || send_blocking(&sh3, Ctx::Client(9), 0, &l, BKind::AskTo(20_000), Body::plain(blocking_uid)).0)
+        };
+        for h in hs {
+            let _ = h.await;
+        }
+        let br = tokio::task::spawn_blocking(move || bt.join().unwrap()).await.unwrap();
+        if !br.is_ok() {
+            sh2.viol(format!("C17 blocking_ask(Some(20 s)) on a live idle actor returned {br:?}"));
+        }
+        #[cfg(feature = "f_metrics")]
+        let _ = tokio::task::spawn_blocking(move || reader.join()).await;
+        // 5. kill the leaf, then concurrent failing sends from two tasks and a thread (dead-letter counter)
+        let lh = H::D(leaf2.clone());
+        kill_via(&sh2, Ctx::Main, 0, &lh);
+        drop(lh);
+    });
+    let leaf_w = rt.spawn(watch(sh.clone(), 0, leaf_jh));
+    rt.block_on(async {
+        let _ = leaf_w.await;
+        let mut hs = vec![];
+        for k in 0..2usize {
+            let (sh3, l) = (sh.clone(), leaf.clone());
+            let u: Vec<u64> = fail_uids[k * 3..k * 3 + 3].to_vec();
+            hs.push(tokio::spawn(async move {
+                let h = H::D(l);
+                send_via(&sh3, Ctx::Client(20 + k), 0, &h, SendKind::Tell, MTy::U, Body::plain(u[0])).await;
+                send_via(&sh3, Ctx::Client(20 + k), 0, &h, SendKind::Ask, MTy::S, Body::plain(u[1])).await;
+                send_via(&sh3, Ctx::Client(20 + k), 0, &h, SendKind::AskTo(50), MTy::R, Body::plain(u[2])).await;
+            }));
+        }
+        let bt = {
+            let (sh3, l, u) = (sh.clone(), leaf.clone(), fail_uids[6..8].to_vec());
+            std::thread::spawn(move || {
+                send_blocking(&sh3, Ctx::Client(30), 0, &l, BKind::Tell, Body::plain(u[0]));
+                send_blocking(&sh3, Ctx::Client(30), 0, &l, BKind::Ask, Body::plain(u[1]));
+            })
+        };
+        for h in hs {
+            let _ = h.await;
+        }
+        let _ = tokio::task::spawn_blocking(move || bt.join()).await;
+        #[cfg(feature = "f_metrics")]
+        crate::sim::metrics_event(&sh, 0, &leaf, "survivor-strong");
+        // 6. stop everything else and join
+        let mut ws = vec![];
+        for (i, r, jh) in mids.drain(..).chain(extra.drain(..)) {
+            let h = H::D(r);
+            stop_via(&sh, Ctx::Main, i, &h).await;
+            drop(h);
+            sh.model_add(i, -1, "drop");
+            ws.push(tokio::spawn(watch(sh.clone(), i, jh)));
+        }
+        for w in ws {
+            let _ = w.await;
+        }
+    });
+    sh.peers.lock().unwrap()[0] = None;
+    drop(leaf);
+    let log = sh.log.snapshot();
+    for id in ids.iter() {
+        reg_remove(*id);
+    }
+    #[cfg(feature = "f_testutils")]
+    let dl_delta = Some(rsactor::dead_letter_count() - dl0);
+    #[cfg(not(feature = "f_testutils"))]
+    let dl_delta = None;
+    let meta = Meta {
+        mode: Mode::Mt,
+        caps: (0..n).map(|i| if i == 0 { 4 } else { 2 }).collect(),
+        ids: ids.clone(),
+        dl_delta,
+        deadlock_feature: false,
+        metrics_feature: cfg!(feature = "f_metrics"),
+        graph_hook: false,
+        tainted: false,
+    };
+    let f = check::check_all(&log, &meta);
+    for v in &f.viol {
+        viol.push((v.clause.to_string(), v.msg.clone()));
+    }
+    #[cfg(all(feature = "f_deadlock", rsactor_verif))]
+    {
+        let snap = rsactor::verif::wait_for_snapshot();
+        if !snap.is_empty() {
+            viol.push(("C15.residue".into(), format!("wait-for graph not empty after every ask finished: {:?}", snap)));
+        }
+    }
+    let failures = log.iter().filter(|e| matches!(&e.k, K::CallEnd { res, .. } if matches!(res, Res::Send | Res::Timeout | Res::Receive))).count() as u64;
+    let vj: Vec<String> = viol
+        .iter()
+        .filter(|(c, _)| prop == "all" || c.starts_with(prop.as_str()) || prop.len() != 3)
+        .map(|(c, m)| JObj::new().s("prop", &c[..3]).s("clause", c).s("msg", m).s("profile", "micro").n("seed", seed).n("pert", 0).b("erased", false).build())
+        .collect();
+    let oj: Vec<String> = f.obl.iter().map(|(k, v)| format!("{}:{}", json_str(k), v)).collect();
+    println!(
+        "{}",
+        JObj::new()
+            .s("engine", "micro")
+            .s("features", &crate::features_label())
+            .n("scenarios", 1)
+            .n("events", log.len() as u64)
+            .n("failed_deliveries", failures)
+            .raw("obl", &format!("{{{}}}", oj.join(",")))
+            .raw("viol", &jarr(&vj))
+            .build()
+    );
+    let _ = Arc::strong_count(&sh);
+    if vj.is_empty() {
+        0
+    } else {
+        1
+    }
 }
